@@ -822,7 +822,12 @@ struct Multi {
 
 fn gen_multi(r: &mut Rng, ex: bool, nparts: usize, sizes: &[usize]) -> Multi {
     let total: usize = sizes.iter().sum();
-    let mut all: Vec<Cl> = (0..total).map(|i| if r.chance(1, 2) { plain_client(i + r.below(50) as usize) } else { gen_client(r) }).collect();
+    let mut all: Vec<Cl> = (0..total).map(|i| match r.below(6) {
+        // players still connecting look alike except for country and flags: ties in (name, clan, score)
+        0 => Cl { name: b"(connecting)".to_vec(), clan: vec![], country: I::V(r.range(-1, 3)), score: I::V(0), flags: I::V(r.range(0, 1)), extra: vec![] },
+        1 | 2 | 3 => plain_client(i + r.below(50) as usize),
+        _ => gen_client(r),
+    }).collect();
     for c in all.iter_mut() {
         // keep every client parsable: the merge generators want well-formed parts
         if let I::T(_) = c.country { c.country = I::V(1); }
@@ -894,7 +899,9 @@ fn expected_clients(parsed: &[PartialServerInfo], set: &[usize]) -> Vec<String> 
             }
         }
     }
-    v.sort();
+    // the documented order of a complete info: by name, clan, country, score, flags (the field order of ClientInfo) --
+    // spelled out here so that the expectation does not depend on the crate's own Ord
+    v.sort_by(|a, b| (a.name.as_bytes(), a.clan.as_bytes(), a.country, a.score, a.flags).cmp(&(b.name.as_bytes(), b.clan.as_bytes(), b.country, b.score, b.flags)));
     v.iter().map(client_txt).collect()
 }
 
